@@ -230,13 +230,17 @@ PROPS["C08"] = dict(
 PROPS["C20"] = dict(
     level="exploration", contracts=["contracts.lowlevel"], unit_filter=lambda u: u.name.startswith("C20."),
     legs=[dict(name="c20_mode", cmd="PYTHONPATH={repo} " + PY312 + " legs/c20_mode.py"),
+          dict(name="c20_faults", cmd="PYTHONPATH={repo} " + PY312 + " legs/c20_faults.py"),
+          dict(name="c20_faults_py311", cmd="PYTHONPATH={repo} " + PY311 + " legs/c20_faults.py")] + old_pythons("c20_faults", "c20_faults.py") + [
           g1("referents", PY312, "py312"), g1("referents", PY311, "py311"), g1("referents", PY310, "py310", vendor=True),
           g1("referents", PY39, "py39", thorough_only=True, vendor=True)],
     technique=BOUNDED_TECH + "; containment and mode-switch obligations discharged deductively",
     explanation="Deductive part: contexts_active_in_frame contains every Exception of the trickery analysis (one InspectionWarning, then the referents fallback on the same frame / origin) and never calls the analysis when it is disabled; _contexts_active_by_referents (3.12 and 3.10 configurations) scans the referents of the generator object (3.11+) or the frame, emits exactly one Context per bound method named __exit__/__aexit__ in referent order with obj = its __self__ and is_async from the name, and appends the is_exiting placeholder last iff an exit call is in progress; set_trickery_enabled stores the setting under _trickery_lock; _check_trickery_available stores its verdict only under that lock and only over a cell it saw unset under the same acquisition (the global is read as volatile whenever the lock is not held), so a concurrent set_trickery_enabled is never overwritten. That the referents of a frame are what the property needs (interpreter behaviour) is the bounded stand-in's.",
     claim="Bounded stand-in for the over-approximation clause (fallback mode: every truly active manager present in order with right obj / "
           "is_async, an is_exiting entry iff an exit is in progress, extras only the manager being entered or exited); containment of "
-          "trickery failures and the set_trickery_enabled mode switch are proved deductively.",
+          "trickery failures and the set_trickery_enabled mode switch are proved deductively. c20_faults: an exception injected at the k-th "
+          "call (k <= 3) of each of 7 helpers of the trickery path, at every suspension point of 6 programs, on a code object never analysed "
+          "before: warning + sound fallback, and the next fault-free inspection (same frame, fresh frame of the same function) is exact again.",
     note=BOUNDED_NOTE + "; what gc.get_referents reports is interpreter behaviour")
 PROPS["C06"] = dict(
     level="exploration", contracts=["contracts.inspect311", "contracts.lowlevel"], static=["contracts.c06_effects"],
